@@ -44,6 +44,13 @@ struct BlockNode<T> {
     start: usize, // start index of the block
 }
 
+#[cfg(may_verif)]
+impl<T> Drop for BlockNode<T> {
+    fn drop(&mut self) {
+        crate::verif::free("MpscBlock", self as *const Self);
+    }
+}
+
 /// we don't implement the block node Drop trait
 /// the queue is responsible to drop all the items
 /// and would call its get() method for the dropping
@@ -51,6 +58,15 @@ impl<T> BlockNode<T> {
     /// create a new BlockNode with uninitialized data
     #[inline]
     fn new_box(index: usize) -> *mut BlockNode<T> {
+        #[cfg(may_verif)]
+        {
+            let p = Box::into_raw(Box::new(BlockNode::new(index)));
+            let b = unsafe { &*p };
+            let first = &b.data[0].ready as *const _ as usize - p as usize;
+            let stride = &b.data[1].ready as *const _ as usize - &b.data[0].ready as *const _ as usize;
+            return crate::verif::alloc("MpscBlock", p, first, stride, BLOCK_SIZE);
+        }
+        #[cfg(not(may_verif))]
         Box::into_raw(Box::new(BlockNode::new(index)))
     }
 
